@@ -25,7 +25,7 @@ EXPR_RULE = ("expressions printed from generated trees (type-aware, against a ge
              "interpreter.Language and on the Lean model; distinct = different canonical case; non-trivial = evaluated without error")
 
 PROPS = {
-    "C01": {"families": [("hist", "general", 500), ("hist", "keys", 300), ("update", None, 2500)], "obligations": P("Props.Reach", "Props.C01", "Props.Refine", "Lemmas.Order", "Lemmas.Search", "Lemmas.Assoc"), "rule": HIST_RULE},
+    "C01": {"families": [("hist", "general", 500), ("hist", "keys", 300), ("update", None, 2500)], "obligations": P("Props.Reach", "Props.C01", "Props.Refine", "Props.RefineMore", "Props.RefineBatch", "Lemmas.Order", "Lemmas.Search", "Lemmas.Assoc"), "rule": HIST_RULE},
     "C02": {"families": [("hist", "search", 500), ("hist", "index", 200), ("race", None, 1)], "obligations": [(TL, "Minidyn.Tie.wellLocked_generated_v1"), (TL, "Minidyn.Tie.wellLocked_generated_v2")] + P("Props.C02", "Props.C03Read", "Props.Reach", "Props.C01", "Lemmas.Order", "Lemmas.Search"), "rule": HIST_RULE},
     "C03": {"families": [("hist", "index", 600)], "obligations": P("Props.C03", "Props.C03Read", "Props.Reach"), "rule": HIST_RULE},
     "C04": {"families": [("hist", "search", 600)], "obligations": P("Props.C04Paging", "Props.C04Index", "Props.C13Start", "Props.ReachGen", "Lemmas.Chain", "Props.C04", "Props.C02", "Props.C13", "Lemmas.Order", "Lemmas.Search"), "rule": HIST_RULE},
@@ -46,6 +46,6 @@ PROPS = {
     "C16": {"families": [("hist", "fail", 300), ("hist", "batch", 200), ("reserved", None, 1), ("match", None, 2000)], "obligations": P("Props.C16") + CLIENT_TIES, "rule": HIST_RULE},
     "C17": {"families": [("hist", "general", 300), ("hist", "lifecycle", 200), ("hist", "emul", 200)], "obligations": P("Props.C17", "Props.C10"), "rule": HIST_RULE},
     "C18": {"families": [("hist", "lifecycle", 600)], "obligations": P("Props.C18") + [(TS, "Minidyn.Tie.no_singleton_leak")], "rule": HIST_RULE},
-    "C19": {"families": [("hist", "batch", 600), ("decomp", None, 300)], "obligations": P("Props.C19", "Props.C19Get") + CLIENT_TIES[:1], "rule": HIST_RULE},
+    "C19": {"families": [("hist", "batch", 600), ("decomp", None, 300)], "obligations": P("Props.C19", "Props.C19Get", "Props.RefineBatch") + CLIENT_TIES[:1], "rule": HIST_RULE},
     "C20": {"families": [("hist", "native", 600)], "obligations": P("Props.C20") + [(T, "Minidyn.Tie.native_keys_tie")], "rule": HIST_RULE},
 }
